@@ -249,6 +249,38 @@ func (w *World) recoverRenamed() {
 			}
 			cands = same
 		}
+		if len(cands) == 0 {
+			// moved to another receiver (or made a plain function) of the same package: the unique NEW function of the
+			// package - one that did not exist when the tables were frozen - with the same parameter and result types
+			pkgOf := func(k string) string {
+				if i := strings.LastIndexByte(k, '/'); i >= 0 {
+					if j := strings.IndexByte(k[i:], '.'); j >= 0 {
+						return k[:i+j]
+					}
+				}
+				if j := strings.IndexByte(k, '.'); j >= 0 {
+					return k[:j]
+				}
+				return k
+			}
+			noRecv := func(fp string) string {
+				if i := strings.IndexByte(fp, '|'); i >= 0 {
+					return fp[i+1:]
+				}
+				return fp
+			}
+			for k, fn := range w.Funcs {
+				if pkgOf(k) != pkgOf(old) || fn.Parent() != nil || len(fn.Blocks) == 0 || frozenExported[k] {
+					continue
+				}
+				if _, isAnchor := frozenSigs[k]; isAnchor {
+					continue
+				}
+				if noRecv(sigFingerprint(fn)) == noRecv(frozenSigs[old]) {
+					cands = append(cands, k)
+				}
+			}
+		}
 		if len(cands) != 1 {
 			continue
 		}
